@@ -389,6 +389,24 @@ func (u *Unparser) body(st []*Node, c Ctx) {
 	u.emit("}", "body}")
 }
 
+// slot emits an expression in a statement-level slot (initialiser, return value, condition, header
+// part, expression statement); in redundant mode it is parenthesised too.
+func (u *Unparser) slot(n *Node) {
+	if u.Redundant && n.K != LetE {
+		u.expr(n, 1)
+		return
+	}
+	u.expr(n, 0)
+}
+
+func (u *Unparser) slotAssign(n *Node) {
+	if u.Redundant {
+		u.expr(n, pAssign) // redundant mode parenthesises anyway
+		return
+	}
+	u.expr(n, pAssign)
+}
+
 func (u *Unparser) semi() {
 	u.Toks = append(u.Toks, Tok{Text: ";", Role: "semi", OptSemi: true, Path: string(u.path)})
 }
@@ -401,7 +419,7 @@ func (u *Unparser) Stmt(n *Node) {
 		u.emit(n.Op, "")
 		if n.A != nil {
 			u.emit("=", "")
-			u.expr(n.A, pAssign)
+			u.slotAssign(n.A)
 		}
 		u.semi()
 	case SFunc:
@@ -413,14 +431,14 @@ func (u *Unparser) Stmt(n *Node) {
 		u.emit("return", "")
 		if n.A != nil {
 			at := len(u.Toks)
-			u.expr(n.A, 0)
+			u.slot(n.A)
 			u.Toks[at].Role += "|afterReturn"
 		}
 		u.semi()
 	case SIf:
 		u.emit("if", "")
 		u.emit("(", "")
-		u.expr(n.A, 0)
+		u.slot(n.A)
 		u.emit(")", "header)")
 		u.Stmt(n.B)
 		if n.C != nil {
@@ -430,22 +448,22 @@ func (u *Unparser) Stmt(n *Node) {
 	case SWhile:
 		u.emit("while", "")
 		u.emit("(", "")
-		u.expr(n.A, 0)
+		u.slot(n.A)
 		u.emit(")", "header)")
 		u.Stmt(n.B)
 	case SFor:
 		u.emit("for", "")
 		u.emit("(", "")
 		if n.A != nil {
-			u.expr(n.A, 0)
+			u.slot(n.A)
 		}
 		u.emit(";", "")
 		if n.B != nil {
-			u.expr(n.B, 0)
+			u.slot(n.B)
 		}
 		u.emit(";", "")
 		if n.C != nil {
-			u.expr(n.C, 0)
+			u.slot(n.C)
 		}
 		u.emit(")", "header)")
 		u.Stmt(n.D)
@@ -464,7 +482,7 @@ func (u *Unparser) Stmt(n *Node) {
 			u.expr(n.A, 0)
 			u.emit(")", "group)")
 		} else {
-			u.expr(n.A, 0)
+			u.slot(n.A)
 		}
 		u.semi()
 	default:
